@@ -728,6 +728,7 @@ def c_arc_gap(case, ctx):
                         % (adv, delta, t))
     rem, th_rem = arc_oracle(Tr, Tb)
     if th_rem > MAXANG:
+        ctx.label("result within 1e-3 of a half turn from the goal: remaining distance not compared")
         return
     t2 = tol(scale, tha, thb, threl, step_rot, th_adv, th_rem)
     if delta <= gap_arc and rem > gap_arc + t2:
@@ -794,7 +795,6 @@ def c_twist_to_goal(case, ctx):
     got = O.exp6(tw) @ Ta
     close(got[:3, :3], Tb[:3, :3], tol(1.0, ang(a[3:]), ang(b[3:]), threl), "Exp(twistToGoal(a,b)) a vs b: rotation")
     close(got[:3, 3], Tb[:3, 3], t, "Exp(twistToGoal(a,b)) a vs b: position")
-    close(tw, O.log6(Trel), t, "twistToGoal(a,b) vs vee(Log(Tb Ta^-1))")
 
 
 def c_chain_jacobian(case, ctx):
@@ -1038,18 +1038,18 @@ def c_angle_mod(case, ctx):
 # ------------------------------------------------------------------------------------------ clause table
 
 CLAUSES = [
-    Clause("mirror_reflects_local_z", c_mirror, mirror_cases(), 600, 6000),
-    Clause("interp_midpoint_geodesic", c_midpoint, pose_pairs(), 600, 6000),
-    Clause("look_at_points_z", c_lookat, lookat_cases(), 600, 6000),
-    Clause("plane_contains_points", c_plane, triples(), 600, 6000),
-    Clause("distance_is_metric", c_distance, distance_cases(), 600, 6000),
-    Clause("arc_distance_relative_pose", c_arc_distance, pose_pairs(), 600, 6000),
-    Clause("close_linear_gap_exact_step", c_linear_gap, gap_cases(), 600, 6000),
-    Clause("close_arc_gap_exact_step", c_arc_gap, gap_cases(), 600, 6000, region=arc_gap_region),
-    Clause("ik_path_even_spacing", c_ik_path, path_cases(), 400, 4000),
-    Clause("twist_to_goal_exponentiates", c_twist_to_goal, pose_pairs(), 600, 6000),
-    Clause("chain_jacobian_is_space_jacobian", c_chain_jacobian, chain_cases(), 600, 6000),
-    Clause("numerical_jacobian_is_analytic", c_numerical_jacobian, numjac_cases(), 400, 4000),
+    Clause("mirror_reflects_local_z", c_mirror, mirror_cases(), 600, 32000),
+    Clause("interp_midpoint_geodesic", c_midpoint, pose_pairs(), 600, 32000),
+    Clause("look_at_points_z", c_lookat, lookat_cases(), 600, 32000),
+    Clause("plane_contains_points", c_plane, triples(), 600, 32000),
+    Clause("distance_is_metric", c_distance, distance_cases(), 600, 32000),
+    Clause("arc_distance_relative_pose", c_arc_distance, pose_pairs(), 600, 32000),
+    Clause("close_linear_gap_exact_step", c_linear_gap, gap_cases(), 600, 32000),
+    Clause("close_arc_gap_exact_step", c_arc_gap, gap_cases(), 600, 32000, region=arc_gap_region),
+    Clause("ik_path_even_spacing", c_ik_path, path_cases(), 400, 16000),
+    Clause("twist_to_goal_exponentiates", c_twist_to_goal, pose_pairs(), 600, 32000),
+    Clause("chain_jacobian_is_space_jacobian", c_chain_jacobian, chain_cases(), 600, 32000),
+    Clause("numerical_jacobian_is_analytic", c_numerical_jacobian, numjac_cases(), 400, 16000),
     Clause("sphere_samplers_unit_rows", c_sphere, kind="enum", size=sphere_size, case_at=sphere_case_at),
-    Clause("angle_mod_multiple_of_2pi", c_angle_mod, angle_cases(), 1200, 12000),
+    Clause("angle_mod_multiple_of_2pi", c_angle_mod, angle_cases(), 1200, 64000),
 ]
